@@ -107,6 +107,14 @@ func runC17(w *World) *Result {
 	r.Rule("R-C17-emitcond", "every line of write / read / exists is emitted for every text of path, content and flag (nothing is left out because a text equals one seen before)", 3)
 	EmitCondRule(w, b, r, "R-C17-emitcond", "WriteFile", "ReadFile", "Exists")
 	c08Quote(w, b, r, func(m string) bool { return m == "WriteFile" || m == "ReadFile" || m == "Exists" || m == "FuncCall" }) // paths and contents also travel as function arguments
+	// what read and exists hand back is a name of its own (a fresh helper), not a scratch variable
+	// that the next read assigns again: print(read(a), read(b)) names two files
+	r.Rule("R-C17-result", "the value read / exists hand back is held in a fresh helper variable of its own, in both back ends (two reads in one statement do not share one variable)", 2)
+	for _, role := range []string{"bash", "batch"} {
+		if bb, err := BuildBackend(w, role); err == nil {
+			c04ImmediateFor(w, bb, r, "R-C17-result", func(m string) bool { return m == "ReadFile" || m == "Exists" })
+		}
+	}
 	// read: what is handed back is the file without its final line terminator – exactly one.
 	// A plain command substitution removes every trailing newline.
 	r.Rule("R-C17-read", "read returns the file's content minus exactly one final newline (a plain $(cat file) removes all trailing newlines: empty lines at the end are lost)", 1)
